@@ -6,6 +6,7 @@ import (
 	"bytes"
 	"fmt"
 
+	"github.com/contiv/libOpenflow/common"
 	of "github.com/contiv/libOpenflow/openflow13"
 	"github.com/contiv/libOpenflow/util"
 
@@ -297,6 +298,34 @@ func c06Tree(r *ev.Run, n *wire.N, h bind.Hist, ret *retained, rep any) {
 		}
 		del := false
 		switch m.K {
+		case "hello":
+			if hl, ok := lm.(*common.Hello); ok {
+				// header, then every element intact, each followed by its zero padding to 8 bytes
+				pos, okAll := 8, true
+				for i, e := range hl.Elements {
+					eb := sizeCheck(r, e, "hello_elem", ret, bad)
+					if eb == nil {
+						okAll = false
+						break
+					}
+					if pos+len(eb) > len(b) || !bytes.Equal(b[pos:pos+len(eb)], eb) {
+						bad("embed:hello.Elements", fmt.Sprintf("element %d (%x) is not at offset %d of the hello %x", i, eb, pos, b))
+						okAll = false
+						break
+					}
+					pos += len(eb)
+					for pos%8 != 0 && pos < len(b) {
+						if b[pos] != 0 {
+							bad("pad:hello.Elements", fmt.Sprintf("non-zero padding byte at offset %d of the hello %x", pos, b))
+							okAll = false
+						}
+						pos++
+					}
+				}
+				if okAll && pos != len(b) {
+					bad("embed:hello.Elements", fmt.Sprintf("%d bytes behind the last element of the hello %x", len(b)-pos, b))
+				}
+			}
 		case "flow_mod":
 			del = m.U["Command"] == 3 || m.U["Command"] == 4
 			mb := walkMatch(m.S["Match"])
@@ -382,6 +411,7 @@ func c06(r *ev.Run, replay string) {
 			c06Tree(r, c.Tree, c.Hist, ret, c)
 		} else {
 			c06Packets(r, ret)
+			directSizes(r, ret)
 		}
 		r.Set("states", 1)
 		return
@@ -418,6 +448,7 @@ func c06(r *ev.Run, replay string) {
 	})
 	r.Completed("switch-originated kinds that have constructors (error, features/config reply, flow-removed, port-status, packet-in)")
 	np := c06Packets(r, ret)
+	np += directSizes(r, ret)
 	r.Set("states", shapes+nsw+np)
 	r.Set("traces_validated_against_impl", r.Counter("transitions")/3)
 	r.Set("evaluations", r.Counter("transitions")/3)
